@@ -1035,6 +1035,7 @@ func CreateTemp(dir, pattern string) (*File, error) {
 					d.Planted = map[string]bool{}
 				}
 				d.Planted[d.abs(name)] = true
+				d.Planted[base(name)] = true // by leaf name too: the directory may be reached through a symlink
 				d.Fired = append(d.Fired, "temp_name_collision")
 			}
 		}
